@@ -15,8 +15,8 @@ impl Scenario for C17 {
     }
     fn runs(&self, tier: Tier) -> u64 {
         match tier {
-            Tier::Quick => 900,
-            Tier::Thorough => 40_000,
+            Tier::Quick => 900 + 60,
+            Tier::Thorough => 40_000 + 2_000,
         }
     }
     fn rule(&self) -> String {
@@ -32,6 +32,56 @@ impl Scenario for C17 {
         let bk = Bk::ALL[(run % 6) as usize];
         let mut b = Builder::new("C17", seed, run, vec![bk]);
         let fk = b.family_keys(bk.family(), false).unwrap();
+        // the runs after the general episodes are "duets": two or three threads repeat the very same
+        // one or two operations on the very same key, so that whatever an operation keeps process-wide
+        // (a pool, a cache, a memo) is entered by several threads in the same state at the same moment;
+        // scheduled at the finest granularity the build offers (tools/bb_tier.sh runs only these in its
+        // second batch: VERIF_C17_DUET_FROM=0)
+        let duet_from = std::env::var("VERIF_C17_DUET_FROM").ok().and_then(|s| s.parse::<u64>().ok()).unwrap_or(match tier {
+            Tier::Quick => 900,
+            Tier::Thorough => 40_000,
+        });
+        if run >= duet_from {
+            let slow = matches!(bk, Bk::V1 | Bk::V3);
+            // mostly two or three threads; now and then more than any pool or cache is likely to hold entries
+            // for, so that the last idle entry is contended while the others are in use
+            let nthreads = if slow { 2 + b.rng.usize_below(2) } else { *b.rng.pick(&[2usize, 3, 3, 2, 3, 4, 5, 6]) };
+            let small = |b: &mut Builder| b.rng.usize_below(100);
+            let pool: Vec<Vec<TOp>> = vec![
+                vec![TOp::Sign { len: small(&mut b) }],
+                vec![TOp::VerifyShared],
+                vec![TOp::Sign { len: small(&mut b) }, TOp::VerifyOwn],
+                vec![TOp::Encrypt { len: small(&mut b) }],
+                vec![TOp::DecryptShared],
+                vec![TOp::Encrypt { len: small(&mut b) }, TOp::DecryptOwn],
+                vec![TOp::WrapPie, TOp::UnwrapPieOwn],
+                vec![TOp::SealKey, TOp::UnsealKeyOwn],
+                vec![TOp::Id { kind: Kind::Public }],
+                vec![TOp::Id { kind: Kind::Local }],
+                vec![TOp::Expose { kind: Kind::Secret }],
+                vec![TOp::VerifyShared, TOp::VerifyBad { byte: b.rng.usize_below(4096) }],
+                vec![TOp::WrapPw, TOp::UnwrapPwOwn],
+            ];
+            let mut pick = b.rng.usize_below(pool.len());
+            if bk == Bk::V1 && matches!(pool[pick][0], TOp::SealKey) {
+                pick = 0;
+            }
+            let unit = pool[pick].clone();
+            let reps = 2 + b.rng.usize_below(if slow { 2 } else { 4 });
+            let mut scripts = Vec::new();
+            for _ in 0..nthreads {
+                let mut s = Vec::new();
+                for _ in 0..reps {
+                    s.extend(unit.iter().cloned());
+                }
+                scripts.push(s);
+            }
+            let sched = if b.rng.chance(3, 4) { SchedKind::Random } else { SchedKind::Pct { depth: 1 + b.rng.below(3) as u32 } };
+            let seed = b.ev_seed();
+            let bb = *b.rng.pick(&[2u32, 2, 3, 4]);
+            b.push(Step::Threads { spec: ThreadSpec { node: 0, local: fk.local, secret: fk.secret, public: fk.public, pke_public: fk.pke_public, pke_secret: fk.pke_secret, scripts, sched, seed, fine: true, bb, exit_probe: false } });
+            return b.finish();
+        }
         // every fifth episode is a key rotation episode: threads use whatever key set is current while
         // others replace it by fresh objects of another principal (freed and new objects share addresses)
         if (run / 6) % 5 == 4 {
